@@ -33,8 +33,9 @@ def make_spec(pid, profile, rule_extra, n_quick=100, n_thorough=6000, extra_orac
         r = ecell.run_history(case)
         hits = []
         stats = {'cycles': 0, 'evictions': 0, 'restores': 0, 'pending_after_cycle': 0, 'placements': 0}
+        # the oracles look at the operations that did complete, also when a later one raised
+        hits = ecell_oracles.run_oracle(pid, r['trace'])
         if r['error'] is None:
-            hits = ecell_oracles.run_oracle(pid, r['trace'])
             if extra_oracle:
                 hits += extra_oracle(case, r)
             for rec in r['trace']:
@@ -90,9 +91,9 @@ def make_spec(pid, profile, rule_extra, n_quick=100, n_thorough=6000, extra_orac
 
 def replay(pid, case, extra_oracle=None):
     r = ecell.run_history(case)
-    if r['error'] is not None:
-        return ('implementation-error', '%s: %s' % (r['error']['type'], r['error']['msg']))
     hits = ecell_oracles.run_oracle(pid, r['trace'])
+    if r['error'] is not None:
+        return hits[0] if hits else ('implementation-error', '%s: %s' % (r['error']['type'], r['error']['msg']))
     if extra_oracle:
         hits += extra_oracle(case, r)
     return hits[0] if hits else None
